@@ -775,6 +775,21 @@ impl Rig {
                 let r = std::fs::remove_dir_all(path);
                 verif::trace::emit(json!({"e": "RemoveDir", "path": path, "ok": r.is_ok()}));
             }
+            "wait_audit_settled" => {
+                // wait until the listener has caught up with its backlog: the number of pending records stops changing
+                let t0 = std::time::Instant::now();
+                let mut last = verif::audit::len();
+                let mut stable = 0;
+                while t0.elapsed() < Duration::from_millis(st["timeout_ms"].as_u64().unwrap_or(10000)) && stable < 10 && last > 0 {
+                    std::thread::sleep(Duration::from_millis(30));
+                    let n = verif::audit::len();
+                    if n == last { stable += 1; } else { stable = 0; last = n; }
+                }
+                verif::trace::emit(json!({"e": "AuditLen", "n": verif::audit::len(), "tag": st["tag"], "waited_ms": t0.elapsed().as_millis() as u64}));
+            }
+            "audit_len" => {
+                verif::trace::emit(json!({"e": "AuditLen", "n": verif::audit::len(), "tag": st["tag"]}));
+            }
             "notify_key_keeper" => {
                 let kk = self.shared.get_key_keeper_shared_state();
                 let _ = self.rt.block_on(kk.notify());
